@@ -25,6 +25,49 @@ theorem source_shapes_as_modelled :
     tryAttestationOrder = ["SetLastObservedEventNonce", "SetLastObservedBlockHeight", "processAttestation",
       "cleanupTimedOutBatches", "cleanupTimeOutBridgeCall"] := by decide
 
+/-- more shapes the model is parametrised by, as read from `/repo` now: who pays a fee increase and in which token, who
+a refunded bridge call pays, what applying a bridge-call result does per outcome, what `EndBlocker` cleans up -/
+theorem source_shapes_settlement :
+    incFeePayer = .msgSender ∧ incFeeTokenCheck = true ∧ callRefundReceiver = .refund ∧
+    resultRefundsOnFailure = true ∧ resultRefundsOnSuccess = false ∧
+    resultDeletesOnFailure = true ∧ resultDeletesOnSuccess = true ∧ endBlockerCleanups = [] := by decide
+
+/-- the argument an inner call receives for parameter `name` -/
+def argOf (params args : List String) (name : String) : Option String :=
+  ((params.zip args).find? (fun p => p.1 == name)).map (·.2)
+
+/-- the value a record literal gives field `field` -/
+def fieldOf (fields : List (String × String)) (field : String) : Option String :=
+  (fields.find? (fun f => f.1 == field)).map (·.2)
+
+/-- `queued_is_supplied`, the data flow in the source (regenerated from the Go AST): every field of the stored transfer /
+bridge-call record is filled from the parameter of that name, and that parameter receives, through both call layers,
+the message field of that name — destination, token amount, fee, sender; sender, refund address, coins, target, call
+data, memo.  Swapping two arguments of equal type anywhere on the way breaks this. -/
+theorem supplied_fields_reach_the_record :
+    -- SendToExternal → AddToOutgoingPool → addToOutgoingPool → OutgoingTransferTx
+    fieldOf sendRecordFields "Sender" = some "sender.String()" ∧ fieldOf sendRecordFields "DestAddress" = some "receiver" ∧
+    fieldOf sendRecordFields "Token" = some "types.NewERC20Token(amount.Amount,tokenContract)" ∧
+    fieldOf sendRecordFields "Fee" = some "types.NewERC20Token(fee.Amount,tokenContract)" ∧
+    fieldOf sendRecordFields "Id" = some "txID" ∧
+    (["sender", "receiver", "amount", "fee"].map (argOf sendPoolParams sendPoolArgs)) =
+      [some "sender", some "receiver", some "amount", some "fee"] ∧
+    (["sender", "receiver", "amount", "fee"].map (argOf sendAddParams sendMsgArgs)) =
+      [some "sender", some "msg.Dest", some "msg.Amount", some "msg.BridgeFee"] ∧
+    -- BridgeCall → AddOutgoingBridgeCall → BuildOutgoingBridgeCall → OutgoingBridgeCall
+    fieldOf bridgeCallRecordFields "Sender" = some "types.ExternalAddrToStr(k.moduleName,sender.Bytes())" ∧
+    fieldOf bridgeCallRecordFields "Refund" = some "types.ExternalAddrToStr(k.moduleName,refundAddr.Bytes())" ∧
+    fieldOf bridgeCallRecordFields "To" = some "types.ExternalAddrToStr(k.moduleName,to.Bytes())" ∧
+    fieldOf bridgeCallRecordFields "Tokens" = some "tokens" ∧
+    fieldOf bridgeCallRecordFields "Data" = some "hex.EncodeToString(data)" ∧
+    fieldOf bridgeCallRecordFields "Memo" = some "hex.EncodeToString(memo)" ∧
+    fieldOf bridgeCallRecordFields "Nonce" = some "nextID" ∧ fieldOf bridgeCallRecordFields "Timeout" = some "bridgeCallTimeout" ∧
+    (["sender", "refundAddr", "to", "data", "memo"].map (argOf bridgeCallBuildParams bridgeCallBuildArgs)) =
+      [some "sender", some "refundAddr", some "to", some "data", some "memo"] ∧
+    (["sender", "refundAddr", "baseCoins", "to", "data", "memo"].map (argOf bridgeCallAddParams bridgeCallMsgArgs)) =
+      [some "msg.GetSenderAddr()", some "msg.GetRefundAddr()", some "msg.Coins", some "msg.GetToAddr()",
+       some "msg.MustData()", some "msg.MustMemo()"] := by decide
+
 /-- the partition invariant holds in every reachable state -/
 theorem reachable_inv (s0 : State) (h0 : IsInit s0) (ops : List Op) : Inv (run s0 ops) :=
   inv_run (inv_init h0) ops
@@ -182,8 +225,9 @@ theorem increase_fee_exact (s s' : State) (id : Nat) (who : Addr) (t : Token) (a
   have hpayer : ∀ tx : Tx, incFeePayerOf tx who = who := by
     have : incFeePayer = .msgSender := by decide
     intro tx; simp [incFeePayerOf, this]
+  have htc : incFeeTokenCheck = true := by decide
   unfold doIncFee at h
-  simp only [hpayer] at h
+  simp only [hpayer, htc, true_and] at h
   split at h
   · cases h
   · split at h
